@@ -87,3 +87,22 @@ func ScratchBase() string {
 	}
 	return ""
 }
+
+// Args are the command line options shared by all drivers.
+type Args struct {
+	Seed    int64
+	Out, In string
+	N       int
+	Big     bool
+	Conc    bool
+	Timeout int
+	Skip    int
+	KD      int
+}
+
+// Commands maps "subsystem/mode" to a driver. Driver packages register
+// themselves from an init function; cmd/vharness imports them.
+var Commands = map[string]func(a Args){}
+
+// Register adds a driver command.
+func Register(name string, f func(a Args)) { Commands[name] = f }
